@@ -587,7 +587,7 @@ def _mask(ctx) -> None:
                    "not one: bare AssertionError, and no check at all under python -O)")
 
 
-def certainly_raised_for_empty_list(prog, q, self_len=None, errors=("TypeError",)):
+def certainly_raised_for_empty_list(prog, q, self_len=None, errors=("TypeError",), key_kind="list"):
     """(number of raises judged, the raise events of `q` (a __getitem__ / __setitem__) whose path conditions are ALL definitely true
     under key = [] - three-valued evaluation; `self_len` optionally fixes len(self))"""
     from ..sites2 import interp_of as _iof
@@ -599,6 +599,13 @@ def certainly_raised_for_empty_list(prog, q, self_len=None, errors=("TypeError",
     keys = {KEY, ("call", ("attr", SELF, "_check_duplicate"), (KEY,), ())}
     selfs = {SELF, ("attr", SELF, "_underlying")}
     LISTY = {"list", "Iterable", "Sequence", "Sized", "Collection", "Container", "Reversible", "MutableSequence", "object"}
+    if key_kind == "untyped-vector":          # Vector([]): a vector without a dtype and without elements
+        LISTY = {"Vector", "Iterable", "Sized", "Collection", "Container", "object"}
+    NONE_T = ("const", "NoneType", None)
+
+    def is_key_schema(t):
+        return (t[0] == "call" and t[1][0] == "attr" and t[1][2] == "schema" and not t[2] and t[1][1] in keys) or \
+               (t[0] == "attr" and t[2] == "_dtype" and t[1] in keys)
 
     def val(t):
         """abstract value: ('coll', frozenset|tuple) for a known collection, ('k', python value), or None (unknown)"""
@@ -674,6 +681,10 @@ def certainly_raised_for_empty_list(prog, q, self_len=None, errors=("TypeError",
             if v and v[0] == "coll" and not v[1]:
                 return t[1][1] == "all"
             return None
+        if key_kind == "untyped-vector" and t[0] == "cmp" and t[1] in ("Is", "IsNot") and is_key_schema(t[2]) and t[3] == NONE_T:
+            return t[1] == "Is"
+        if key_kind == "untyped-vector" and is_key_schema(t):
+            return False                       # (truth value of the missing dtype)
         if t[0] == "cmp":
             a_, b_ = val(t[2]), val(t[3])
             if a_ is None or b_ is None:
@@ -709,10 +720,13 @@ def _empty_list_mask(ctx) -> None:
     prog = ctx.prog
     for q in ("vector.Vector.__getitem__", "table.Table.__getitem__"):
         f = prog.func(q)
-        n_r, refused = certainly_raised_for_empty_list(prog, q, self_len=0, errors=("TypeError", "ValueError"))
-        if q.startswith("vector."):
-            n2, r2 = certainly_raised_for_empty_list(prog, q, self_len=3, errors=("TypeError", "ValueError"))
-            n_r, refused = n_r + n2, refused + r2
+        n_r, refused = 0, []
+        # (on tables the same row selection is applied to every column alike: what every column accepts - the empty list, the
+        #  untyped empty vector Vector([]) a mask / index vector computed from no rows comes out as - the table accepts too)
+        for kind in ("list", "untyped-vector"):
+            for n_self in (0, 3):
+                n2, r2 = certainly_raised_for_empty_list(prog, q, self_len=n_self, errors=("TypeError", "ValueError"), key_kind=kind)
+                n_r, refused = n_r + n2, refused + r2
         ctx.ob("d.dispatch-exhaustive", f, "empty-list-mask", not refused,
                f"{n_r} raise(s) judged, none certainly reached by key = []", (refused[0].node if refused else f.node),
                message=f"{q}: the empty list certainly reaches a refusal (line {getattr(refused[0].node, 'lineno', 0) if refused else 0}): a list "
@@ -1150,11 +1164,12 @@ def _rows(ctx) -> None:
 
 _V, _T = "vector", "table"
 MUTANTS = [
+    dict(id="table-refuses-empty-selection", module=_T, count=1,
+         old="		if (isinstance(key, list) or (isinstance(key, Vector) and key.schema() is None)) and len(key) == 0:\n			# the empty list and an untyped empty vector (Vector([]): a mask",
+         new="		if False:\n			# the empty list and an untyped empty vector (Vector([]): a mask", rules=["d.dispatch-exhaustive"], desc="reverts fix 171ac85"),
     dict(id="empty-index-list-wrong-length-mask", module=_V, count=2, nth=0,
          old="		if (isinstance(key, list) or (isinstance(key, Vector) and key.schema() is None)) and len(key) == 0:",
          new="		if isinstance(key, Vector) and key.schema() is None and len(key) == 0:", rules=["d.dispatch-exhaustive"], desc="reverts fix a2b9f72 (getitem)"),
-    dict(id="empty-list-mask-refused-table", module=_T, old="if isinstance(key, list) and {type(e) for e in key} <= {bool}:",
-         new="if isinstance(key, list) and {type(e) for e in key} == {bool}:", rules=["d.dispatch-exhaustive"], desc="reverts fix 24604ad (table)"),
     dict(id="table-compare-zero-rows-rowwise", module="table", old="			if len(self) == 0:\n				# (no rows to pair", new="			if False:\n				# (no rows to pair",
          rules=["d.dispatch-exhaustive"], desc="reverts fix b698280"),
     dict(id="getitem-untyped-key-unguarded", module="vector",
